@@ -112,7 +112,8 @@ def cases_for(numerals, carriers):
     def gen():
         for c, t, kind, f, unit, epi in table_entries():
             shared = sorted({ch for ch in f if ch in '123456789'})
-            for numeral_kind in list(numerals) + ['shared:' + d for d in shared]:
+            extra = ['dec'] if (c == 'es-mx' and 'dec' not in numerals) else []     # es-mx shares its classes with es-es: always both marks
+            for numeral_kind in list(numerals) + extra + ['shared:' + d for d in shared]:
                 for carrier in carriers:
                     yield {'culture': c, 'type': t, 'kind': kind, 'spelling': f, 'unit': unit, 'numeral': numeral_kind, 'carrier': carrier,
                            'ep': epi}
@@ -197,7 +198,7 @@ def compound_pairs():
 def compound_cases():
     pairs = compound_pairs()
     return st.builds(lambda i, a, b, n, mfrac: {'pair': i, 'ms': a, 'fs': b, 'n': n, 'm': mfrac},
-                     st.integers(0, len(pairs) - 1), st.integers(0, 5), st.integers(0, 5), st.integers(1, 999), st.integers(1, 999))
+                     st.integers(0, len(pairs) - 1), st.integers(0, 5), st.integers(0, 5), st.integers(1, 999), st.one_of(st.integers(0, 999), st.just(0)))
 
 
 def run_compound(case):
@@ -205,7 +206,7 @@ def run_compound(case):
     main, ms, iso, fname, fs, ratio = pairs[case['pair'] % len(pairs)]
     msp, fsp = ms[case['ms'] % len(ms)], fs[case['fs'] % len(fs)]
     n = case['n']
-    mm = 1 + (case['m'] - 1) % (ratio - 1) if ratio > 1 else 1
+    mm = case['m'] % ratio if ratio > 1 else 1      # 0 .. ratio-1 ('5 dollars and 0 cents' is worth 5)
     q = '%d %s and %d %s' % (n, msp, mm, fsp)
     m = unit_model('en-us', 'currency')
     res = m.parse(q)
